@@ -131,3 +131,96 @@ func nonConstReturns(fn *ssa.Function, i int) []*ssa.Return {
 	}
 	return out
 }
+
+// SubjectGuard builds, for a subject value, the matcher of the comparisons
+// that guard it (same contract as guardedBy's match).
+type SubjectGuard func(v ssa.Value) func(Cond) (bool, bool)
+
+// guardedByS: like guardedBy for a guard on one subject value, but the guard
+// may also be established by a predicate helper: a go-nfsd function called
+// with the subject, whose result is tested by the caller, and all of whose
+// returns of the tested class are themselves guarded on the corresponding
+// parameter ("if err := check(x); err != OK { return }").
+func guardedByS(fn *ssa.Function, at *ssa.BasicBlock, subj ssa.Value, mk SubjectGuard, depth int) bool {
+	if guardedBy(fn, at, mk(subj)) {
+		return true
+	}
+	if depth > 2 {
+		return false
+	}
+	same := func(a, b ssa.Value) bool {
+		return stripConv(a) == stripConv(b) || sameParamField(a, b)
+	}
+	for _, br := range branches(fn) {
+		var call *ssa.Call
+		// class: 1 = boolean true, 0 = boolean false, 2 = status OK
+		type cls struct {
+			class int
+			succ  *ssa.BasicBlock
+		}
+		var classes []cls
+		switch {
+		case br.Cond.Op == token.ILLEGAL:
+			if c, ok := br.Cond.X.(*ssa.Call); ok {
+				call = c
+				classes = []cls{{1, br.True}, {0, br.False}}
+			}
+		case br.Cond.Op == token.EQL || br.Cond.Op == token.NEQ:
+			c, ok := stripConv(br.Cond.X).(*ssa.Call)
+			k, isk := constInt(br.Cond.Y)
+			if ok && isk && k == 0 && isNamedStatus(c.Type()) {
+				call = c
+				if br.Cond.Op == token.EQL {
+					classes = []cls{{2, br.True}}
+				} else {
+					classes = []cls{{2, br.False}}
+				}
+			}
+		}
+		if call == nil {
+			continue
+		}
+		h := call.Call.StaticCallee()
+		if h == nil || !IsRepoFunc(h) || h.Blocks == nil || h == fn {
+			continue
+		}
+		idx := -1
+		for i, a := range call.Call.Args {
+			if same(a, subj) && i < len(h.Params) {
+				idx = i
+			}
+		}
+		if idx < 0 {
+			continue
+		}
+		for _, c := range classes {
+			if !edgeDominates(br.Block, c.succ, at) {
+				continue
+			}
+			all, n := true, 0
+			for _, b := range h.Blocks {
+				r, ok := b.Instrs[len(b.Instrs)-1].(*ssa.Return)
+				if !ok || len(r.Results) != 1 {
+					continue
+				}
+				inClass := true // unknown results count for every class
+				if bv, isb := constBool(r.Results[0]); isb {
+					inClass = (c.class == 1 && bv) || (c.class == 0 && !bv)
+				} else if k, isk := constInt(r.Results[0]); isk {
+					inClass = c.class == 2 && k == 0
+				}
+				if !inClass {
+					continue
+				}
+				n++
+				if !guardedByS(h, b, h.Params[idx], mk, depth+1) {
+					all = false
+				}
+			}
+			if all && n > 0 {
+				return true
+			}
+		}
+	}
+	return false
+}
